@@ -321,7 +321,9 @@ def nontrivial_keys(spec, results):
             cls = 'stdout' if not path else ('long' if len(path) > 150 else ('dir' if '/' in path else 'plain'))
             keys.append('%s:%s:%s:%d' % (h, f, cls, month))
     else:
-        keys.append('%s:%s:%s:%d' % (h, spec['pair'][0], spec['pair'][1], spec['world'].get('chunk_mode', 0)))
+        w = r.stats.get('alnlen', 0)
+        if r.stats.get('has_gaps') or (w and (w % 60 in (0, 1, 59))):
+            keys.append('%s:%s:%s:%d' % (h, spec['pair'][0], spec['pair'][1], spec['world'].get('chunk_mode', 0)))
     return keys
 
 
